@@ -6,7 +6,8 @@ equality, positions ignored).  Four case kinds:
   ir             one syntax-IR tree rendered four ways — single-space baseline,
                  rich separators at every boundary between sibling forms at every
                  depth (space, tab, LF, CR, CRLF, FF, VT, ; comments, #_ FORM
-                 discards incl. nested ones), all-long-form, all-sugar.  All four
+                 discards incl. nested ones; the same mix between a sugar prefix and
+                 its operand), all-long-form, all-sugar.  All four
                  must read to the same models, and to the IR's expected models.
   concat         two trees A, B: read(A + sep + B) == read(A) ++ read(B); sep may be
                  empty where that is token-safe.
@@ -33,8 +34,9 @@ ANCHORS = ["hy.reader.hy_reader:HyReader.discard", "hy.reader.hy_reader:HyReader
            "hy.reader.hy_reader:HyReader.hash_star", "hy.reader.hy_reader:HyReader.annotate",
            "hy.reader.hy_reader:HyReader.parse_forms_until"]
 ASSUMPTIONS = [
-    "separators are inserted only between sibling forms (and before the first / after the last form of "
-    "a sequence); after a sugar prefix only plain whitespace is used (documented: ' FORM)",
+    "separators are inserted between sibling forms (and before the first / after the last form of a "
+    "sequence) and between a sugar prefix (' ` ~ ~@ #* #** #^ #_) and its operand(s); after a '#' prefix "
+    "at least one whitespace character precedes a '#_' (otherwise '#*#_' is one tag)",
     "a comment is terminated by LF or CRLF (a lone CR does not end a comment in Hy; docs say 'end of line')",
     "direct juxtaposition only where the left text ends in a closer, a closing quote or whitespace that "
     "is not part of an unterminated comment, or the right text begins with whitespace",
@@ -266,7 +268,8 @@ def gate(tot, classes, extra, tier):
     for need in ("ir", "concat", "sugar_pairs"):
         if not k.get(need):
             return f"no-{need}-cases"
-    for need in ("has:comment", "has:discard", "has:ws:CR", "has:ws:FF", "has:ws:VT", "juxtaposed"):
+    for need in ("has:comment", "has:discard", "has:ws:CR", "has:ws:FF", "has:ws:VT", "juxtaposed",
+                 "has:sugar-ws", "has:sugar-noise"):
         if not classes.get(need):
             return f"class-{need}-never-generated"
     return None
